@@ -36,6 +36,19 @@ pub struct Spec {
     pub shape: String,
     /// "parser" | "ctor" | "serde"
     pub builder: String,
+    /// build profile of the child: "plain" (optimised, no debug assertions)
+    /// or "dev" (unoptimised)
+    #[serde(default = "default_profile")]
+    pub profile: String,
+}
+
+fn default_profile() -> String {
+    "plain".to_string()
+}
+
+fn child_exe(profile: &str) -> Option<std::path::PathBuf> {
+    let var = if profile == "dev" { "VP_CHILD_EXE_DEV" } else { "VP_CHILD_EXE" };
+    std::env::var_os(var).map(std::path::PathBuf::from)
 }
 
 fn text_of(n: usize, shape: &str) -> String {
@@ -328,8 +341,8 @@ pub fn child_main(spec: &str) -> i32 {
 
 pub fn judge(s: &Spec, out: &ChildOutcome) -> Result<CaseResult, String> {
     let case = json!({"spec": s});
-    let sig_op = format!("op={} shape={}", s.op, s.shape);
-    let desc = format!("{} on a {} list of {} elements built by {}", s.op, s.shape, s.n, s.builder);
+    let sig_op = format!("op={} shape={}{}", s.op, s.shape, if s.profile == "dev" { " profile=dev" } else { "" });
+    let desc = format!("{} on a {} list of {} elements built by {} ({} profile)", s.op, s.shape, s.n, s.builder, s.profile);
     match out {
         ChildOutcome::Timeout => Err(format!("watchdog expired: {}", desc)),
         ChildOutcome::SpawnError(e) => Err(format!("cannot spawn child: {}", e)),
@@ -356,7 +369,7 @@ pub fn judge(s: &Spec, out: &ChildOutcome) -> Result<CaseResult, String> {
                 } else {
                     "ops:value"
                 };
-                Ok(Ok(Eval::new(true, digest_of(s)).class(cls).class(match s.shape.as_str() {
+                Ok(Ok(Eval::new(true, digest_of(s)).class(cls).class(if s.profile == "dev" { "profile:dev" } else { "profile:plain" }).class(match s.shape.as_str() {
                     "proper" => "shape:proper",
                     "dotted" => "shape:dotted",
                     _ => "shape:alist",
@@ -398,25 +411,40 @@ fn specs(tier: Tier, seed: u64) -> Vec<Spec> {
                 let n = draw_n(&mut k);
                 let shape = shapes[(mix(seed, k + 77) % 3) as usize];
                 let builder = if gi == 0 { ["parser", "ctor", "ctor"][(d + k as usize) % 3] } else { "parser" };
-                out.push(Spec { op: op.to_string(), n, shape: shape.to_string(), builder: builder.to_string() });
+                out.push(Spec { op: op.to_string(), n, shape: shape.to_string(), builder: builder.to_string(), profile: "plain".into() });
             }
         }
     }
     for op in SERDE_OPS {
         for d in 0..draws {
             let n = draw_n(&mut k);
-            out.push(Spec { op: op.to_string(), n, shape: "proper".into(), builder: if d % 2 == 0 { "serde" } else { "ctor" }.into() });
+            out.push(Spec { op: op.to_string(), n, shape: "proper".into(), builder: if d % 2 == 0 { "serde" } else { "ctor" }.into(), profile: "plain".into() });
         }
     }
     // the value built by Serde goes through the value operations too
     for op in ["clone", "eq", "drop", "print-to_string", "value-to_vec"] {
-        out.push(Spec { op: op.to_string(), n: draw_n(&mut k), shape: "proper".into(), builder: "serde".into() });
+        out.push(Spec { op: op.to_string(), n: draw_n(&mut k), shape: "proper".into(), builder: "serde".into(), profile: "plain".into() });
     }
     // datum parsing from &str recomputes positions per datum (quadratic): keep n small there
-    out.push(Spec { op: "datum-parse-str".into(), n: 100_000, shape: "proper".into(), builder: "parser".into() });
+    out.push(Spec { op: "datum-parse-str".into(), n: 100_000, shape: "proper".into(), builder: "parser".into(), profile: "plain".into() });
+    // the same operations in an unoptimised build: stack independence must not
+    // rest on the optimiser turning recursion into loops (smaller n: the
+    // unoptimised build is an order of magnitude slower, and per-element
+    // recursion overflows 2 MiB at ~10^4 elements there)
+    let mut dev: Vec<Spec> = Vec::new();
+    for group in [VALUE_OPS, PARSE_OPS, DATUM_OPS, SERDE_OPS] {
+        for op in group.iter() {
+            k += 1;
+            let n = 200_000 + (mix(seed, k) % 200_000) as usize;
+            let shape = if group.as_ptr() == SERDE_OPS.as_ptr() { "proper" } else { shapes[(mix(seed, k + 99) % 3) as usize] };
+            let builder = if op.starts_with("serde") { "serde" } else if k % 2 == 0 { "ctor" } else { "parser" };
+            dev.push(Spec { op: op.to_string(), n, shape: shape.to_string(), builder: builder.to_string(), profile: "dev".into() });
+        }
+    }
+    out.extend(dev);
     if tier == Tier::Thorough {
         for op in ["parse-reader", "print-to_string", "drop", "eq", "iter-count", "datum-parse-reader", "serde-from_value"] {
-            out.push(Spec { op: op.to_string(), n: 10_000_000, shape: "proper".into(), builder: if op.starts_with("serde") { "serde" } else { "parser" }.into() });
+            out.push(Spec { op: op.to_string(), n: 10_000_000, shape: "proper".into(), builder: if op.starts_with("serde") { "serde" } else { "parser" }.into(), profile: "plain".into() });
         }
     }
     out
@@ -425,7 +453,11 @@ fn specs(tier: Tier, seed: u64) -> Vec<Spec> {
 fn run(ctx: &mut Ctx) {
     let sp = specs(ctx.tier, ctx.seed);
     let js: Vec<Json> = sp.iter().map(|s| serde_json::to_value(s).unwrap()).collect();
-    let outs = child::spawn_all("c16", &js, Duration::from_secs(120), 12);
+    let exes: Vec<Option<std::path::PathBuf>> = sp.iter().map(|s| child_exe(&s.profile)).collect();
+    if sp.iter().zip(exes.iter()).any(|(s, e)| s.profile == "dev" && e.is_none()) {
+        ctx.inconclusive.push("VP_CHILD_EXE_DEV is not set: the unoptimised child binary is missing (run through ./check)".into());
+    }
+    let outs = child::spawn_all_with("c16", &js, &exes, Duration::from_secs(180), 12);
     for (s, o) in sp.iter().zip(outs.iter()) {
         match judge(s, o) {
             Ok(r) => ctx.observe("child", r),
@@ -438,12 +470,12 @@ fn run(ctx: &mut Ctx) {
     }
     // control: nesting depth (not length) is allowed to exhaust the stack; recorded, not asserted
     ctx.notes.push("control (not asserted): values nested 10^5 levels deep through the constructors may exhaust the stack; the property is about length only".into());
-    ctx.required_classes = vec!["ops:value", "ops:parse", "ops:print", "ops:datum", "ops:serde", "shape:proper", "shape:dotted", "shape:alist"];
+    ctx.required_classes = vec!["ops:value", "ops:parse", "ops:print", "ops:datum", "ops:serde", "shape:proper", "shape:dotted", "shape:alist", "profile:plain", "profile:dev"];
 }
 
 fn replay(_sub: &str, case: &Json) -> Option<CaseResult> {
     let s: Spec = serde_json::from_value(case.get("spec")?.clone()).ok()?;
-    let out = child::spawn("c16", &serde_json::to_value(&s).ok()?, Duration::from_secs(120));
+    let out = child::spawn_with("c16", &serde_json::to_value(&s).ok()?, child_exe(&s.profile), Duration::from_secs(180));
     judge(&s, &out).ok()
 }
 
